@@ -114,6 +114,23 @@ pub fn gen_small_zone(rng: &mut Rng, apex: &RName, class: u16, hostile_adds: boo
                 2 => rec.ttl = rec.ttl.wrapping_add(1),
                 3 => rec.ttl = 0x8000_0000 | rec.ttl,
                 4 => rec.owner = apex.parent(1).unwrap_or_else(RName::root),
+                5 => {
+                    // an owner outside the zone whose wire form ends in the apex's wire form: one
+                    // label spells "<junk><apex labels with their length octets>"
+                    let mut label: Vec<u8> = vec![b'x'];
+                    for l in &apex.0 {
+                        label.push(l.len() as u8);
+                        label.extend_from_slice(l);
+                    }
+                    if !apex.0.is_empty() && label.len() <= 63 {
+                        let mut v: Vec<Vec<u8>> = (0..rng.below(3)).map(|_| pick_label(rng).to_vec()).collect();
+                        v.push(label);
+                        let o = RName(v);
+                        if o.is_valid() {
+                            rec.owner = o;
+                        }
+                    }
+                }
                 _ => {}
             }
         }
